@@ -243,6 +243,15 @@ def replay(rp):
     import replaylib
     out = {'reproduced': False, 'runs': []}
     m = re.match(r'map_(chunk|index)(?:_count)?_(i64|u64|i32)$', rp['target'])
+    if rp['target'] in ('section_block', 'section_dtor'):
+        # completion / re-throw clauses: scenarios with throwing tasks on the real pool (timing makes the schedule likely, not certain)
+        exe = replaylib.build_header_only('replay/C17_block_replay.cpp', 'C17_block_replay',
+                                          extra=[os.path.join(replaylib.REPO, 'src/core/parallel.cpp'), '-lpthread'])
+        rc, so, se = replaylib.run_driver(exe, [], timeout=120)
+        out['runs'].append({'driver': 'replay/C17_block_replay.cpp', 'exit': rc, 'output': so.strip()[-1500:]})
+        out['reproduced'] = rc == 1
+        out['note'] = 'schedule dependent: throwing tasks + sleeps on the real pool; the worker loop / constructor / destructor targets have no native driver'
+        return out
     if not m:
         out['note'] = 'no native driver for this target: the replay file carries the verifier output only'
         return out
